@@ -14,7 +14,8 @@ RULE = ("two positions <= 1 NM apart (30% identical; latitude dense at the 58 NL
         "position() and airborne_position(); oracle: result within one quantisation step of the position encoded in the later "
         "frame (lon mod 360), None only if the reference NL of the two encoded latitudes differ, equal parities -> RuntimeError. "
         "non-trivial = latitude within 0.02 deg of a transition, |lat|>86.5, |lon|>179.9, displaced pair, or odd-first argument order; "
-        "distinct by (positions, parity, times)")
+        "distinct by (positions, parity, times)"
+        ' Also: int / float / datetime time stamps incl. naive datetimes inside the spring-forward hour of a pinned DST zone, hex letter case, the same two strings re-decoded with exchanged time stamps, 924 real even/odd pairs re-encoded by the reference encoder (leg corpus).')
 ASSUMPTIONS = ["pairs with an encoded latitude within 1e-9 deg of an NL transition are counted, not judged", "both frames carry a type code of the same class (mixed baro/GNSS pairs are rejected by position() by design)",
                "reference encoder ref/cpr.py follows DO-260B A.1.7.3"]
 
